@@ -455,6 +455,45 @@ theorem hendrix_row_sum (t : HendrixTab α) (x y : Nat) (hx : x ≤ t.maxA) (hy 
     · have : x ≤ z := by omega
       simp [h, this]
   rw [← hz]; ring
+theorem binomPmf_nonneg (ρ : α) (h0 : 0 ≤ ρ) (h1 : ρ ≤ 1) (n k : Nat) : 0 ≤ binomPmf ρ n k := by
+  unfold binomPmf
+  apply mul_nonneg (mul_nonneg (Nat.cast_nonneg _) (pow_nonneg h0 _)) (pow_nonneg (by linarith) _)
+
+theorem hendrixPu_nonneg (t : HendrixTab α) (hb : ∀ n, 0 ≤ t.pb n) (h0 : 0 ≤ t.rho) (h1 : t.rho ≤ 1) (u y : Nat) : 0 ≤ hendrixPu t u y := by
+  rw [pu_full]
+  exact Finset.sum_nonneg fun e _ => mul_nonneg (hb _) (binomPmf_nonneg _ h0 h1 _ _)
+
+theorem hendrixPz_nonneg (t : HendrixTab α) (ha : ∀ n, 0 ≤ t.pa n) (hb : ∀ n, 0 ≤ t.pb n) (h0 : 0 ≤ t.rho) (h1 : t.rho ≤ 1) (z y : Nat) :
+    0 ≤ hendrixPz t z y := by
+  unfold hendrixPz
+  rw [lsum_range]
+  exact Finset.sum_nonneg fun k _ => mul_nonneg (ha _) (hendrixPu_nonneg t hb h0 h1 _ _)
+
+/-- **every Hendrix event probability is non-negative** when the Poisson tables and the tail table are (and 0 ≤ ρ ≤ 1) -/
+theorem hendrix_nonneg (t : HendrixTab α) (ha : ∀ n, 0 ≤ t.pa n) (hb : ∀ n, 0 ≤ t.pb n) (ht : ∀ n, 0 ≤ t.tailA n)
+    (h0 : 0 ≤ t.rho) (h1 : t.rho ≤ 1) (x y : Nat) : ∀ p ∈ hendrixRow t x y, 0 ≤ p := by
+  intro p hp
+  simp only [hendrixRow, List.mem_flatMap, List.mem_map, List.mem_range] at hp
+  obtain ⟨ia, _, ib, _, rfl⟩ := hp
+  unfold hendrixCell hendrixP1 hendrixP2 hendrixP3 hendrixP4
+  have hz := hendrixPz_nonneg t ha hb h0 h1
+  have e1 : 0 ≤ (if ia < x then t.pa ia else 0) * (if ib < y then t.pb ib else 0) := by
+    apply mul_nonneg <;> split <;> first | exact ha _ | exact hb _ | exact le_refl _
+  have e2 : 0 ≤ (if ia = x then t.tailA x * (if ib < y then t.pb ib else 0) else 0) := by
+    split
+    · apply mul_nonneg (ht _); split <;> first | exact hb _ | exact le_refl _
+    · exact le_refl _
+  have e3 : 0 ≤ (if ib = y then (if ia < x then hendrixPz t ia y else 0) else 0) := by
+    split
+    · split <;> first | exact hz _ _ | exact le_refl _
+    · exact le_refl _
+  have e4 : 0 ≤ (if ia = x ∧ ib = y then lsum ((List.range (t.D + 1)).map fun z => if x ≤ z then hendrixPz t z y else 0) else 0) := by
+    split
+    · rw [lsum_range]
+      apply Finset.sum_nonneg; intro z _; split <;> first | exact hz _ _ | exact le_refl _
+    · exact le_refl _
+  linarith
+
 end HendrixMass
 
 /-! non-vacuity -/
